@@ -161,6 +161,7 @@ type FnTrans struct {
 	deferredEx []func() string // goal existentials whose instances are chosen at oblige time
 	obWit    []Val           // witness terms named by hypotheses while instantiating for the current obligation
 	deferEx  bool
+	onlyChecks []onlyCheck
 	stableFlds []stableFld
 	concats  [][3]string     // string concatenations translated so far (left, right, result)
 	wantTy   types.Type      // Go type of the quantified variable candidates are being chosen for
@@ -1395,4 +1396,9 @@ type stableFld struct {
 	owner types.Type
 	field string
 	src   string
+}
+
+type onlyCheck struct {
+	sd    SiteDecl
+	probs []string
 }
